@@ -3,136 +3,95 @@
    The model (C04/Model.v) runs negotiateSession with an explicit I/O plan: every connection
    operation is indexed; the plan fails operations (cut / transient) and cancels the context.
    [run cfg plan bits clear tls calls] returns the result and the final world (state bits,
-   trace of operations and callbacks). *)
-From XV Require Import lib.Bytes gen.NegTables C04.Model C04.Generic C04.Structure C04.Proofs.
+   trace of operations and callbacks). The model is that of the repaired code; the three
+   statements that were refuted of the earlier code (sasl.go's unflushed <success/>,
+   features.go's early Ready bit, session.go's unnoticed cancellation) now hold at full
+   strength, and their former witnesses are scenarios of the harness. *)
+From XV Require Import lib.Bytes gen.NegTables C04.Model C04.Generic C04.Structure C04.Fuel C04.Proofs.
 
-(* ---- A nil error is returned only for a session whose every executed step succeeded.
-
-   Full-strength statement: in a run that returns Ok every event of the trace is that of a
-   successful step (every read and every write succeeded, no callback reported an error, no
-   ctx test saw a cancelled context). *)
-Definition C04_nil_error_means_all_steps_ok_statement : Prop :=
+(* ---- A nil error is returned only for a session whose every executed step succeeded:
+   for every configuration, plan (any faults, any cancellation), scripts and callback values,
+   in a run that returns Ok every read and every write succeeded, every callback (Negotiate of
+   a custom feature, mechanism Step, bind callback) returned no error and no ctx test saw a
+   cancelled context. *)
+Theorem C04_nil_error_means_all_steps_ok :
   forall cfg pl bits clear tls calls w,
-    run cfg pl bits clear tls calls = (ROk tt, w) -> all_steps_ok (fun _ => False) (w_trace w).
-
-(* It is false of the faithful model: sasl.go's negotiateServer leaves <success/> in the
-   encoder's buffer and the deferred w.Close() drops the flush error. Witness (observed on
-   the implementation by the harness): receiver, SASL PLAIN + bind, exactly that Write fails. *)
-Theorem C04_nil_error_means_all_steps_ok_refuted :
-  exists cfg pl bits clear tls calls w,
-    run cfg pl bits clear tls calls = (ROk tt, w) /\ ~ all_steps_ok (fun _ => False) (w_trace w).
-Proof. exact nil_error_all_ok_refuted. Qed.
-Print Assumptions C04_nil_error_means_all_steps_ok_refuted.
-
-(* What holds, for every configuration, plan, script and callback script: in a run that
-   returns Ok every read succeeded, every callback (Negotiate of a custom feature, mechanism
-   Step, bind callback) returned no error, no ctx test saw a cancelled context, and the only
-   write that may have failed is the flush of <success/>. *)
-Theorem C04_nil_error_means_all_steps_ok_partial :
-  forall cfg pl bits clear tls calls w,
-    run cfg pl bits clear tls calls = (ROk tt, w) -> all_steps_ok (eq WSuccess) (w_trace w).
+    run cfg pl bits clear tls calls = (ROk tt, w) -> all_steps_ok (w_trace w).
 Proof. exact run_ok_clean. Qed.
-Print Assumptions C04_nil_error_means_all_steps_ok_partial.
+Print Assumptions C04_nil_error_means_all_steps_ok.
 
-(* ---- An error result never comes with the Ready bit: the mask of a failing step is not
-   applied.
-
-   Full-strength statement: whatever the plan and the scripts, a run that does not return Ok
-   ends with the Ready bit clear. *)
-Definition C04_error_state_not_ready_statement : Prop :=
+(* ---- An error result never comes with the Ready bit. *)
+Theorem C04_error_state_not_ready :
   forall cfg pl bits clear tls calls r w,
     run cfg pl bits clear tls calls = (r, w) -> r <> ROk tt -> is_ready (w_bits w) = false.
-
-(* It is false of the faithful model: features.go applies the mask of every successful
-   feature to the session state at once and goes on with the same list when the feature was
-   voluntary; if that feature reported Ready and a later step fails, the error is returned
-   with the bit set. Witness (observed on the implementation, no fault involved). *)
-Theorem C04_error_state_not_ready_refuted :
-  exists cfg pl bits clear tls calls w,
-    run cfg pl bits clear tls calls = (RErr, w) /\ is_ready (w_bits w) = true.
-Proof. exact err_not_ready_refuted. Qed.
-Print Assumptions C04_error_state_not_ready_refuted.
-
-(* What holds, for every configuration, plan (any faults, any cancellation), scripts and
-   callback values: if no successful Negotiate of a custom feature reported Ready in the run
-   (the built-in STARTTLS, SASL, bind and the component handshake are covered
-   unconditionally), a result other than Ok leaves the Ready bit clear. In particular the
-   mask that bind's receiving side returns together with a flush error is never applied. *)
-Theorem C04_error_state_not_ready_partial :
-  forall cfg pl bits clear tls calls r w,
-    run cfg pl bits clear tls calls = (r, w) -> calm_run cfg (w_trace w) ->
-    r <> ROk tt -> is_ready (w_bits w) = false.
 Proof. exact run_err_not_ready. Qed.
-Print Assumptions C04_error_state_not_ready_partial.
+Print Assumptions C04_error_state_not_ready.
 
-(* ---- Cut: the connection is cut at operation k (that operation and every later one fails:
-   a closed connection).
+(* ... and inside feature negotiation the mask a step returns is applied only when the step
+   returned no error (features.go `if err == nil { s.state |= mask }`): a step that does not
+   return Ok leaves the state bits as they were, whatever mask it wanted to set. *)
+Theorem C04_failed_step_mask_not_applied :
+  forall pl n recv f ft pre w r w',
+    interp pl (run_feature n recv f ft pre) w = (r, w') -> (forall o, r <> ROk o) ->
+    w_bits w' = w_bits w.
+Proof. exact run_feature_err_bits. Qed.
+Print Assumptions C04_failed_step_mask_not_applied.
 
+(* ---- Cut: the connection is cut at operation k (that operation and every later one fails).
    For every configuration (standard negotiator in either role and framing, component
    negotiator; any feature list), initial bits, peer scripts, callback values, handshake
-   verdict, cancellation instant c and every k smaller than the number of operations the
-   un-faulted run performs: the cut run does not return Ok, and its Ready bit is clear.
-   Premise: no successful Negotiate of a custom feature reported Ready in the cut run (see
-   C04_error_state_not_ready_refuted for why the bit needs it; for the result itself it rules
-   out the one way to survive a failed operation, features.go's early Ready followed by the
-   receiving side's unflushed <success/>). *)
+   verdict, cancellation instant and every k smaller than the number of operations the
+   un-faulted run performs: the cut run does not return Ok, and its Ready bit is clear. *)
 Theorem C04_cut_fails_closed :
   forall cfg c hs bits clear tls calls k ru wu rc wc,
     run cfg (mkPlan FNone c hs) bits clear tls calls = (ru, wu) ->
     run cfg (mkPlan (FCut k) c hs) bits clear tls calls = (rc, wc) ->
-    k < w_ops wu -> calm_run cfg (w_trace wc) ->
-    rc <> ROk tt /\ is_ready (w_bits wc) = false.
+    k < w_ops wu ->
+    failed rc /\ is_ready (w_bits wc) = false.
 Proof. exact cut_fails_closed. Qed.
 Print Assumptions C04_cut_fails_closed.
 
-(* ---- Cancellation.
+(* ---- Transient: exactly operation k returns an error. Same conclusion: no read or write
+   error is swallowed anywhere on a path that ends in a nil error. *)
+Theorem C04_transient_fails_closed :
+  forall cfg c hs bits clear tls calls k ru wu rc wc,
+    run cfg (mkPlan FNone c hs) bits clear tls calls = (ru, wu) ->
+    run cfg (mkPlan (FTransient k) c hs) bits clear tls calls = (rc, wc) ->
+    k < w_ops wu ->
+    failed rc /\ is_ready (w_bits wc) = false.
+Proof. exact transient_fails_closed. Qed.
+Print Assumptions C04_transient_fails_closed.
 
+(* ---- Cancellation.
    (a) The context is cancelled while operation c is blocked on a transport with deadlines:
-   session.go's setDeadline makes that operation fail, and every later ctx test sees the
-   cancellation. For every c smaller than the number of operations of the un-faulted run the
-   result is not Ok and the Ready bit is clear (same premise as above). *)
+   setDeadline makes that operation fail. *)
 Theorem C04_cancel_while_blocked_fails :
   forall cfg hs bits clear tls calls c ru wu rc wc,
     run cfg (mkPlan FNone None hs) bits clear tls calls = (ru, wu) ->
     run cfg (mkPlan (FTransient c) (Some c) hs) bits clear tls calls = (rc, wc) ->
-    c < w_ops wu -> calm_run cfg (w_trace wc) ->
-    rc <> ROk tt /\ is_ready (w_bits wc) = false.
-Proof. exact cancel_blocked_fails. Qed.
+    c < w_ops wu ->
+    failed rc /\ is_ready (w_bits wc) = false.
+Proof. exact cancel_while_blocked_fails. Qed.
 Print Assumptions C04_cancel_while_blocked_fails.
 
 (* (b) The context is cancelled between two operations (when operation c is entered; the
-   deadline pulse finds nothing to interrupt). Full-strength statement: for every c smaller
+   deadline pulse finds nothing to interrupt), under any fault plan f: for every c smaller
    than the number of operations of the un-cancelled run, the cancelled run does not return
-   Ok. *)
-Definition C04_cancel_before_step_statement : Prop :=
+   Ok and its Ready bit is clear (negotiateSession tests ctx.Err() after every call of the
+   negotiator; Expect, the SASL loop and the component negotiator test it earlier). *)
+Theorem C04_cancel_before_step :
   forall cfg f hs bits clear tls calls c ru wu rc wc,
     run cfg (mkPlan f None hs) bits clear tls calls = (ru, wu) ->
     c < w_ops wu ->
     run cfg (mkPlan f (Some c) hs) bits clear tls calls = (rc, wc) ->
-    rc <> ROk tt.
+    failed rc /\ is_ready (w_bits wc) = false.
+Proof. exact cancel_fails. Qed.
+Print Assumptions C04_cancel_before_step.
 
-(* It is false of the faithful model: negotiateSession never looks at ctx and the deadline is
-   cleared again at once, so only the ctx.Done() tests of Expect (and of the SASL loop / List,
-   and of the repaired component negotiator) notice a cancellation. Witness (observed on the
-   implementation): initiator, header and empty features list in two Reads, cancelled when
-   the second Read is entered. *)
-Theorem C04_cancel_before_step_refuted :
-  exists cfg f hs bits clear tls calls c ru wu wc,
-    run cfg (mkPlan f None hs) bits clear tls calls = (ru, wu) /\
-    c < w_ops wu /\
-    run cfg (mkPlan f (Some c) hs) bits clear tls calls = (ROk tt, wc).
-Proof. exact cancel_before_completion_refuted. Qed.
-Print Assumptions C04_cancel_before_step_refuted.
-
-(* What holds, for every configuration, fault plan f, scripts: if the un-cancelled run makes
-   a ctx.Done() test after operation c (n operations performed at that test, c < n) - that
-   is, a stream header is still to be read, or a SASL round - the cancelled run returns an
-   error. *)
-Theorem C04_cancel_before_step_partial :
-  forall cfg f hs bits clear tls calls c n ru wu rc wc,
-    run cfg (mkPlan f None hs) bits clear tls calls = (ru, wu) ->
-    In (ECtxPass n) (w_trace wu) -> c < n ->
-    run cfg (mkPlan f (Some c) hs) bits clear tls calls = (rc, wc) ->
-    rc = RErr.
-Proof. exact cancel_before_ctx_test. Qed.
-Print Assumptions C04_cancel_before_step_partial.
+(* ---- The standard fuel always suffices: no run ends "out of fuel". Hence [failed r] above
+   means: an error was returned - or (RStuck) the scripted callback values do not fit the run,
+   a case outside the model that the correspondence check reports as a mismatch. *)
+Theorem C04_run_total :
+  forall cfg pl bits clear tls calls, fst (run cfg pl bits clear tls calls) <> RFuel.
+Proof. exact run_nofuel. Qed.
+Print Assumptions C04_run_total.
